@@ -226,15 +226,15 @@ theorem objFields_run (G : GCtx) (A : Act) (hA : A.OK G) (st : St) (mem : Mem) (
           ⟨h0.push (.obj (pre ++ (k, Val.null) :: fs.map fun f => (f.1, Val.null))), outs⟩ A.c hA.code sp k (.ref h0.size) none
           imem, memberVal_dot]
         simp only [hcell, hlk, memOrg_field _ _ _ _ _ hcell hlk]
-      have hasg := Runs.of_exec1 (fr := G.fr) (mem := mem) (fun it_ kk =>
+      have hah : assignHeap (h0.push (.obj (pre ++ (k, Val.null) :: fs.map fun f => (f.1, Val.null)))) (.field h0.size k) v =
+          some ((h0.push (.obj (pre ++ (k, Val.null) :: fs.map fun f => (f.1, Val.null)))).setIfInBounds h0.size
+            (.obj (setField (pre ++ (k, Val.null) :: fs.map fun f => (f.1, Val.null)) k v))) := by
+        simp only [assignHeap, hcell]
+      have hasg := Runs.of_exec1W (fr := G.fr) (mem := mem) (fun it_ kk =>
         mkS_assign_org G.code G.lim (withIt G.s it_) A.fn (ip + 2 + nI (cpE G.mod (ρS scopes) x lm).1) A.rest A.mp kk
           (⟨.ref h0.size, none⟩ :: stk) mem.cells
           ⟨h0.push (.obj (pre ++ (k, Val.null) :: fs.map fun f => (f.1, Val.null))), outs⟩ A.c hA.code sp
-          (.field h0.size k)
-          ((h0.push (.obj (pre ++ (k, Val.null) :: fs.map fun f => (f.1, Val.null)))).setIfInBounds h0.size
-            (.obj (setField (pre ++ (k, Val.null) :: fs.map fun f => (f.1, Val.null)) k v)))
-          .null v none iasg (by
-            simp only [assignHeap, hcell]))
+          (.field h0.size k) _ .null v none iasg hah) (fun hi => HeapInv.assign hah hi)
       rw [setField_append pre k .null v _ hkpre hkpost, push_set_last] at hasg
       have hrest := hvs2 h0 outs (pre ++ [(k, v)]) hnd' (by
         intro k' hk' hmem'
@@ -296,5 +296,14 @@ theorem placeOfM_shape (b : Val) (name : String) (sp : Span) (st : St) :
         · unfold readPlace
           simp only [M_bind, readCell_run, hc, hl]
           rfl
+
+theorem lookup_nulls (fs : List (String × Expr)) (k : String) (hk : ∀ f ∈ fs, f.1 ≠ k) :
+    (fs.map fun f => (f.1, Val.null)).lookup k = none := by
+  induction fs with
+  | nil => rfl
+  | cons f fs ih =>
+    have hne : (k == f.1) = false := by simpa using (hk f (by simp)).symm
+    simp only [List.map_cons, List.lookup_cons, hne]
+    exact ih (fun f' hf' => hk f' (by simp [hf']))
 
 end HmsProofs.Sim
